@@ -8,6 +8,14 @@ props = [json.loads(l) for l in open(os.path.join(V, "properties.jsonl"))]
 DIFF = "bounded-exhaustive grammar/derivation enumeration executed on the real code, compared point by point with a reference interpreter"
 META = "bounded-exhaustive enumeration of identity-schema instantiations x documents executed on the real code; metamorphic oracle (implementation against itself)"
 claimed = {
+ "C16": ("bounded-exhaustive enumeration of strings x literal spellings executed on the real code; round-trip oracle (the string itself)",
+         "every string up to the stated length over a 16-symbol alphabet of quotes, escapes, control characters and 1-4 byte code points is written in every spelling the grammar allows (raw string, JSON literal, quoted identifier; 11 spellings) and must evaluate to itself / select the member of that name; JSON values between backticks must keep their number text",
+         "trusts the 40-line escaping routines of the harness, which follow the grammar's escape rules",
+         "4/C16"),
+ "C18": ("bounded-exhaustive enumeration of expression pairs x documents executed on the real code; closure oracle through the public API",
+         "every (e1, e2) of the menus (all built-ins, all core constructs, empty inputs; plus every C01 expression as e1 with 10 probes) on every document: result walked for non-JSON parts, serialised and decoded, e2 searched over the live and the decoded result, both equal to `e1 | e2`",
+         "trusts encoding/json as the serialiser",
+         "4/C18"),
  "C11": ("bounded-exhaustive enumeration of string constructs x strings x numeric arguments on the real code; metamorphic renaming oracle (a,b,c -> 1-4 byte code points, order preserving) + reference comparison on the ASCII point",
          "every string-handling construct on every string over {a,b,c} up to the stated length with all numeric arguments in -1..6 is evaluated as written and under two injective order-preserving renamings to multi-byte code points, in literal and document delivery; the result must rename the same way, be valid UTF-8, and the ASCII point must agree with the reference",
          "trusts the renaming harness (60 lines) and, for the differential part, the reference's string functions",
